@@ -194,6 +194,18 @@ def conc_gens_phase(tier, seed, wd, info, verdict):
             scs.append(dict(id="C12-conc-%d" % k, ids=ids, n=0, t=0, initiator=ids[0], account="DW/unused", generate=False, jitter_us=(0, 300, 2500)[rep % 3] + rep,
                             conc_gens=[dict(initiator=i_, n=n_, t=t_, account=a_) for i_, n_, t_, a_ in gens]))
     by = run_parallel(scs, wd, "c12conc")
+    # the same on clusters of REAL dirk binaries: the generations' messages travel side by side through the binaries' own gRPC senders and
+    # receivers; what every instance holds is read from its listing and, after the processes have been stopped, from its wallet store
+    bscs = [dict(sc_, id=sc_["id"].replace("C12-conc-", "C12-conc-bin-"), jitter_us=0) for sc_ in scs[::reps][:(3 if tier == "quick" else 6)] if all(i_ < 100 for i_ in sc_["ids"])]
+    if bscs:
+        bchunks = [bscs[i::3] for i in range(3) if bscs[i::3]]
+        with ThreadPoolExecutor(max_workers=3) as ex:
+            bouts = list(ex.map(lambda a: run_dkgdrv(a[1], wd, "c12concbin%d" % a[0], timeout=900, dirk=build_dirk()), enumerate(bchunks)))
+        for evs_, rc_, err_ in bouts:
+            if rc_ != 0:
+                raise Inconclusive("concurrent generations on dirk binaries: dkgdrv exited %s: %s" % (rc_, err_[-400:]))
+            by.update(split_scenarios(evs_))
+        scs = scs + bscs
     lines, index, gmeta = [], [], {}
     nok = nfail = 0
     drift = []
@@ -244,7 +256,7 @@ def conc_gens_phase(tier, seed, wd, info, verdict):
     if drift and not verdict.violations:
         # the model of concurrent generations no longer describes the code; nothing of this is a statement of C12
         print("DRIFT (DkgConc.tla): " + "; ".join(drift[:4]))
-    return dict(scenarios=len(scs), generations=nok + nfail, succeeded=nok, failed=nfail, drift=drift[:10])
+    return dict(scenarios=len(scs), of_which_on_clusters_of_dirk_binaries=len(bscs), generations=nok + nfail, succeeded=nok, failed=nfail, drift=drift[:10])
 
 
 # ------------------------------------------------------------------------------------------ C12
